@@ -309,6 +309,39 @@ func genC05(c *Ctx) {
 			}
 		}
 	}
+	// reference names that are spelled like the operator keywords: a token is an operator by its role, not by its text
+	// (C05-w8m2: parseOperator comparing token values only reads "MIT LicenseRef-OR ISC" as "MIT OR ISC")
+	{
+		mkl := func(id string) lexeme { return lexeme{text: id, gram: []int{gLIC}} }
+		kal := []lexeme{mkl("MIT"), mkl("ISC"), {text: "Bison-exception-2.2", gram: []int{gEXC}},
+			{text: "LicenseRef-AND", gram: []int{gREF}}, {text: "LicenseRef-OR", gram: []int{gREF}}, {text: "LicenseRef-WITH", gram: []int{gREF}},
+			{text: "DocumentRef-AND", gram: []int{gDOC}}, {text: "DocumentRef-OR", gram: []int{gDOC}}, {text: "DocumentRef-WITH", gram: []int{gDOC}},
+			{text: ":", gram: []int{gCOLON}, punct: true}, {text: "(", gram: []int{gLP}, punct: true}, {text: ")", gram: []int{gRP}, punct: true},
+			{text: "AND", gram: []int{gAND}}, {text: "OR", gram: []int{gOR}}, {text: "WITH", gram: []int{gWITH}}}
+		var rec func(cur []lexeme)
+		rec = func(cur []lexeme) {
+			if len(cur) > 0 {
+				s := renderSeq(cur, false)
+				if r := c.V(s); r != unknown {
+					c.count("keyword_named_references")
+					exp := "0"
+					if derives(cur) {
+						exp = "1"
+					}
+					if r != exp {
+						c.fail("ValidateLicenses", []string{s}, r, exp, "independent recogniser for the grammar applied to the lexeme sequence this string was rendered from; LicenseRef-/DocumentRef- names spelled AND / OR / WITH are references, not operators")
+					}
+				}
+			}
+			if len(cur) == k {
+				return
+			}
+			for _, l := range kal {
+				rec(append(append([]lexeme{}, cur...), l))
+			}
+		}
+		rec(nil)
+	}
 	// the documented suffix forms of EVERY listed id (R2): validity by the normalisation rules, computed here
 	// from the lists alone
 	lookupAE := func(w string) (string, bool) { // active or exception list
